@@ -500,7 +500,7 @@ def run(ck):
     T = ck.thorough
     # ---- bit reader against utils/bits
     rd = []
-    for _ in range(6000 if T else 1200):
+    for _ in range(6000 if T else 800):
         data = bytes(rng.choice([0, 0, rng.randrange(256), 255, 1, 128]) for _ in range(rng.randint(0, 14)))
         ops = []
         for _ in range(rng.randint(1, 8)):
@@ -510,7 +510,7 @@ def run(ck):
     ck.stream("bit_reader", rd, "C15_reader", "reader", None, nontrivial=lambda c: len(c[0]) > 1,
               sig=sig_of("bit-reader"), sample=2)
     # ---- H.264 records
-    n = 12000 if T else 1500
+    n = 12000 if T else 1200
     recs = [gen_h264(rng) for _ in range(n)]
     nals = emit_all(ck, "C15_h264_emit", recs)
     bad = [r for r, b in zip(recs, nals) if b is None]
@@ -519,11 +519,16 @@ def run(ck):
     cases = [[rec_val(r), b] for r, b in zip(recs, nals) if b is not None]
     ck.stream("h264_records", cases, "C15_h264_run", "h264", "C15_h264_ok", sig=sig_of("h264-record"))
     valid = [c[1] for c in cases]
-    garb = [mutate(rng, rng.choice(valid)) for _ in range(10000 if T else 1500)]
+    garb = [mutate(rng, rng.choice(valid)) for _ in range(10000 if T else 1000)]
     garb += [bytes([0x67]) + bytes(rng.randrange(256) for _ in range(rng.randint(0, 60))) for _ in range(3000 if T else 500)]
     garb += [bytes(rng.randrange(256) for _ in range(rng.randint(0, 30))) for _ in range(1000 if T else 300)]
     ck.stream("h264_malformed", garb, "C15_h264_bytes", "h264b", "C15_total_ok", nontrivial=lambda c: len(c) > 4,
               sig=sig_of("h264-malformed"), sample=2)
+    # glue: the same parameter sets inside a generated SDP through sdp.ParseMetadata and media.NewStream
+    g = 2000 if T else 100
+    ck.stream("h264_sdp", cases[:g], "C15_h264_glue", "sdp264", "C15_h264_ok", sig=sig_of("h264-sdp"), sample=1)
+    ck.stream("h264_sdp_malformed", garb[:g], "C15_h264_glueb", "sdp264b", "C15_total_ok", nontrivial=lambda c: len(c) > 4,
+              sig=sig_of("h264-sdp-malformed"), sample=1)
     # ---- H.265 SPS / VPS
     n = 8000 if T else 1000
     recs = [gen_h265(rng) for _ in range(n)]
@@ -538,6 +543,9 @@ def run(ck):
     garb += [bytes([0x42, 0x01]) + bytes(rng.randrange(256) for _ in range(rng.randint(0, 80))) for _ in range(2000 if T else 400)]
     ck.stream("h265_malformed", garb, "C15_h265_bytes", "h265b", "C15_total_ok", nontrivial=lambda c: len(c) > 4,
               sig=sig_of("h265-malformed"), sample=2)
+    ck.stream("h265_sdp", cases[:g], "C15_h265_glue", "sdp265", "C15_h265_ok", sig=sig_of("h265-sdp"), sample=1)
+    ck.stream("h265_sdp_malformed", garb[:g], "C15_h265_glueb", "sdp265b", "C15_total_ok", nontrivial=lambda c: len(c) > 4,
+              sig=sig_of("h265-sdp-malformed"), sample=1)
     # D30 (known finding): the last short-term RPS predicted from the previous one — valid per 7.3.7
     irecs = []
     for _ in range(400 if T else 60):
@@ -601,20 +609,35 @@ def run(ck):
         garb.append(cfg if rng.random() < 0.6 else mutate(rng, cfg))
     ck.stream("asc_malformed", garb, "C15_asc_bytes", "ascb", "C15_asc_total_ok", nontrivial=lambda c: len(c) > 1,
               sig=sig_of("asc-malformed"), sample=2)
+    ck.stream("aac_sdp", (valid + garb)[:2 * g], "C15_sdpaac", "sdpaac", "C15_asc_total_ok", nontrivial=lambda c: len(c) > 1,
+              sig=sig_of("aac-sdp"), sample=1)
     # ---- emulation prevention and the float quotient on their own
-    esc = [bytes(rng.choice([0, 0, 0, 1, 2, 3, 3, 4, 255]) for _ in range(rng.randint(0, 12))) for _ in range(4000 if T else 800)]
+    esc = [bytes(rng.choice([0, 0, 0, 1, 2, 3, 3, 4, 255]) for _ in range(rng.randint(0, 12))) for _ in range(4000 if T else 500)]
     ck.stream("unescape", esc, "C15_unescape", "unescape", None, nontrivial=lambda c: b"\0\0\3" in c,
               sig=sig_of("unescape"), sample=2)
-    fd = [[rng.choice([0, 1, 25, 30000, rng.randrange(2 ** 32)]), rng.choice([0, 1, 2, 1001, 2002, rng.randrange(2 ** 32)])] for _ in range(4000 if T else 800)]
+    fd = [[rng.choice([0, 1, 25, 30000, rng.randrange(2 ** 32)]), rng.choice([0, 1, 2, 1001, 2002, rng.randrange(2 ** 32)])] for _ in range(4000 if T else 500)]
     ck.stream("f64_quotient", fd, "C15_f64div", "f64div", None, nontrivial=lambda c: c[1] > 2,
               sig=sig_of("f64div"), sample=2)
     return ck.finish(
-        rule="syntax records drawn field by field over every optional branch (profile class, chroma_format_idc 0..3, "
-             "separate_colour_plane, scaling lists with negative deltas and early termination, POC types, field coding, "
-             "cropping, VUI, NAL/VCL HRD), ue/se values log-uniform over all code lengths; encoded by the Gallina emit of the "
-             "standard's syntax (run in the driver), NAL-wrapped with emulation prevention, decoded by the real decoder; "
-             "oracle = proved ok_*; non-trivial = record well-ranged (emit succeeded). Malformed: bit flips, truncations, "
-             "splices, inserted 00/03 bytes and random bytes, compared against the model of the Go decoder.",
-        trusted=["float64(uint32)/float64(uint32) is the correctly rounded quotient (f64_div_bits, checked against the hardware every run)"],
+        rule="syntax records (H.264 SPS, H.265 SPS and VPS, AudioSpecificConfig) drawn field by field over every optional "
+             "branch: profile class, chroma_format_idc 0..3, separate_colour_plane, scaling lists with negative deltas and early "
+             "termination, POC types, field coding, cropping / conformance window, VUI, NAL/VCL and sub-picture HRD, 1..7 "
+             "temporal sub-layers with and without ordering info and sub-layer PTL, short-term RPS, long-term pictures, PCM, "
+             "layer sets; ASC rate index 0..12 and the 24-bit escape, AOT escape (Layer 1-3), hierarchical SBR/PS and the "
+             "0x2b7/0x548 sync extensions; ue/se values log-uniform over all code lengths. Each record is encoded by the Gallina "
+             "emit of the standard's syntax (run in the driver, the function in the theorems), NAL-wrapped with rbsp trailing "
+             "bits and emulation prevention, and decoded by the real decoder; oracle = the proved ok_* (reported values = the "
+             "standard's derived-value formulas); non-trivial = record well-ranged (emit succeeded; >98% required). The same "
+             "parameter sets travel inside a generated SDP through sdp.ParseMetadata and media.NewStream. Malformed: bit flips, "
+             "truncations, splices, inserted 00/03 bytes, random and ALS configurations, compared (error/no-error and values) "
+             "against the model of the Go decoder; plus bit reader, emulation-prevention removal and float quotient directly.",
+        trusted=["float64(uint32)/float64(uint32) is the correctly rounded quotient (f64_div_bits, compared with the hardware every run)",
+                 "nal_shape_ok (NAL >= 4 bytes, non-zero header byte) and h26x_ranges (absent field = 0, flags are bits, "
+                 "num_units_in_tick > 0) are hypotheses of the dims theorems re-checked by the oracle on every case"],
         assumptions=["H.264: profile_idc not in {128,138,139,134,135} (subset-SPS profiles) nor 183; num_units_in_tick in 1..2^31-1; "
-                     "picture size within Table A-1 (<= 1055 macroblocks per side)"])
+                     "picture size within Table A-1 (<= 1055 macroblocks per side)",
+                     "H.265: short-term RPS without inter prediction (D30, known finding, witness replayed every run); VPS hrd with "
+                     "cprms_present_flag = 1; the fixed-rate flag of H265RawSPS (a TODO in the source: FrameRate() > 0) is not compared; "
+                     "frame rate = time_scale / num_units_in_tick",
+                     "ASC: core AOT 1..4 (GASpecificConfig with dependsOnCoreCoder = 0, channelConfiguration 1..7) or 32..34; "
+                     "channels = Table 1.19 of channelConfiguration (PS up-mix not applied)"])
